@@ -230,16 +230,16 @@ def r4_defaults_alignment(repo: Repo, rep):
             continue
         n += 1
         good, detail = False, dump(d)
-        if isinstance(d, ast.DictComp) and len(d.generators) == 1:
-            g = d.generators[0]
-            k, v = d.key, d.value
+        if isinstance(d, ast.Dict) and len(d.keys) == 1 and d.keys[0] is not None and getattr(d.values[0], "_iter_src", None) is not None:
+            # one-iteration form of {args[-i]: defaults[-i] for i in range(..)} / the equivalent insertion loop
+            k, v = d.keys[0], d.values[0]
             if isinstance(k, ast.Subscript) and isinstance(v, ast.Subscript):
                 ki, vi = dump(k.slice), dump(v.slice)
                 args_src = dump(k.value)
-                neg = isinstance(k.slice, ast.UnaryOp) and isinstance(k.slice.op, ast.USub)
-                rng = dump(g.iter).replace(" ", "")
-                full = rng in (f"range(len({dump(v.value)}),0,-1)", f"range(1,len({dump(v.value)})+1)")
-                good = ki == vi and neg and full and args_src in ("self.args", "f_args", "inspect.getfullargspec(self.fun).args", "inspect.getfullargspec(self.fun).args + inspect.getfullargspec(self.fun).kwonlyargs") and not g.ifs
+                neg = isinstance(k.slice, ast.UnaryOp) and isinstance(k.slice.op, ast.USub) and isinstance(k.slice.operand, ast.Name) and k.slice.operand.id in v._iter_of
+                rng = dump(v._iter_src).replace(" ", "")
+                full = rng in (f"range(len({dump(v.value)}),0,-1)", f"range(1,len({dump(v.value)})+1)", f"range(1,1+len({dump(v.value)}))")
+                good = ki == vi and neg and full and args_src in ("self.args", "f_args", "inspect.getfullargspec(self.fun).args", "inspect.getfullargspec(self.fun).args + inspect.getfullargspec(self.fun).kwonlyargs")
         elif isinstance(d, ast.Call) and attr_chain(d.func) == "dict" and len(d.args) == 1 and isinstance(d.args[0], ast.Call) and attr_chain(d.args[0].func) == "zip":
             z = d.args[0]
             if len(z.args) == 2 and isinstance(z.args[0], ast.Subscript) and isinstance(z.args[0].slice, ast.Slice):
